@@ -26,6 +26,7 @@ type lockState struct {
 	writer  bool
 	readers int
 	name    string
+	other   bool // currently held by another (modelled) thread that will release it: Lock waits, TryLock fails
 }
 
 func (m *Machine) newErr(name string) Val {
@@ -325,6 +326,12 @@ func init() {
 			ba.Org = &org
 			return Slice{B: ba, Off: CI(64, 0), Len: CI(64, 8), Cap: CI(64, 8)}
 		},
+		vrt + "OtherThreadHolds": func(m *Machine, a []Val) Val {
+			iv := a[0].(Iface)
+			_, ls := m.lockOf(iv.V)
+			ls.other = true
+			return nil
+		},
 		vrt + "Note": func(m *Machine, a []Val) Val { return nil },
 		vrt + "CheckAlloc": func(m *Machine, a []Val) Val { return nil },
 
@@ -468,12 +475,40 @@ func init() {
 		// ---- sync ----
 		"(*sync.Mutex).Lock": func(m *Machine, a []Val) Val {
 			c, ls := m.lockOf(a[0])
+			ls.other = false // waits until the other thread has released it
 			if ls.writer || ls.readers > 0 {
 				m.ex.Fail("deadlock:Lock of a mutex already held (" + ls.name + ") in " + m.where())
 			}
 			ls.writer = true
 			m.acquired(c, ls, true)
 			return nil
+		},
+		"(*sync.Mutex).TryLock": func(m *Machine, a []Val) Val {
+			c, ls := m.lockOf(a[0])
+			if ls.writer || ls.readers > 0 || ls.other {
+				return CB(false)
+			}
+			ls.writer = true
+			m.acquired(c, ls, true)
+			return CB(true)
+		},
+		"(*sync.RWMutex).TryLock": func(m *Machine, a []Val) Val {
+			c, ls := m.lockOf(a[0])
+			if ls.writer || ls.readers > 0 {
+				return CB(false)
+			}
+			ls.writer = true
+			m.acquired(c, ls, true)
+			return CB(true)
+		},
+		"(*sync.RWMutex).TryRLock": func(m *Machine, a []Val) Val {
+			c, ls := m.lockOf(a[0])
+			if ls.writer {
+				return CB(false)
+			}
+			ls.readers++
+			m.acquired(c, ls, false)
+			return CB(true)
 		},
 		"(*sync.Mutex).Unlock": func(m *Machine, a []Val) Val {
 			c, ls := m.lockOf(a[0])
